@@ -126,6 +126,15 @@ def rule_no_reanchoring(chk, rid):
             ds = cfg.reaching_defs(acc, cn)
             if cfg.entry not in ds:
                 v = "LIST"
+            elif sk == "none" and all(d == cfg.entry or d in anchors for d in ds):
+                # `if acc is None: acc = base[:]` followed by the call: on the paths that keep the received value the test's false
+                # edge was taken (acc is not None); on the others acc was just anchored (a list)
+                from ..lib import literals_of_test
+                notnone_edges = [(t.id, lab) for t in cfg.nodes if t.kind == "test" for lab in ("T", "F")
+                                 if any(x[1] == f"{acc} is None" and x[2] is False for x in literals_of_test(t.ast, lab))]
+                unguarded = cn in cfg.reachable(cfg.entry, avoid=[d for d in ds if d != cfg.entry], avoid_edges=notnone_edges)
+                if not unguarded:
+                    v = "LIST"
         ok = not may_equal_sentinel(v, sk)
         chk.ob(rid, C, ok, f"recursive call passes `{U(a)}` ({v}) which cannot look un-anchored" if ok else
                f"recursive call passes `{U(a)}` ({v}) which may equal the un-anchored sentinel: after '..' empties the path the "
@@ -176,9 +185,15 @@ def rule_untouched(chk, rid):
         lits = dominating_literals(cfg, cfg.node_of(c))
         sel = [(e, txt, pol) for e, txt, pol, _ in lits if namep in txt]
         tests = set()
+        from ..lib import nnf, nnf_mentions, nnf_lits
         for n_ in cfg.nodes:
-            if n_.kind == "test" and namep in U(n_.ast) and cfg.edge_dominates(n_.id, "T", cfg.node_of(c)):
-                tests = {norm_literal(d, True) for d in flatten_boolop(n_.ast, ast.Or)}
+            for lab_ in ("T", "F"):      # the resolving append may sit on either branch of the selection test
+                if n_.kind == "test" and namep in U(n_.ast) and cfg.edge_dominates(n_.id, lab_, cfg.node_of(c)):
+                    tree = nnf(n_.ast, lab_ == "T")
+                    parts = tree[1] if tree[0] == "and" else [tree]
+                    mine = [p_ for p_ in parts if nnf_mentions(p_, namep)]
+                    if len(mine) == 1 and nnf_lits(mine[0]) is not None:
+                        tests = nnf_lits(mine[0])
         want = {(f"{namep} is None", True), (f"{namep} == {var}.segment_name()", True)}
         chk.ob(rid, C, tests == want, f"selection test is {sorted(tests)}" + ("" if tests == want else
                f" (must be exactly {sorted(want)}: '' selects only the unnamed resource, None selects all)"), c, m, key="selection")
